@@ -110,6 +110,12 @@ impl Arc {
 
     /// Returns true if the memory should be dropped.
     pub(crate) fn ref_dec(&self, location: Location) -> bool {
+        // Execution has deadlocked, this is a drop while the deadlock panic
+        // unwinds; cleanup does not matter (see `Mutex::release_lock`).
+        if rt::execution(|execution| !execution.threads.is_active()) {
+            return false;
+        }
+
         self.branch(Action::RefDec, location);
 
         rt::execution(|execution| {
